@@ -486,6 +486,24 @@ Definition bazel_front (r : res) (root_lines : list string) : front_res :=
     end
   end.
 
+(* ---- several input files, in the order given.  Both front-ends read every file (the first
+   failure wins) and accumulate what the files declare: the command line extends one token
+   list with each file's parameters and re-parses it once; compile_requirements unions the
+   three sets file after file (shape read by T1). *)
+Fixpoint combine_res (rs : list res) (acc : out) : res :=
+  match rs with
+  | [] => Ok acc
+  | Ok (t, p) :: r => combine_res r ((fst acc ++ t)%list, (snd acc ++ p)%list)
+  | Err e o :: _ => Err e o
+  end.
+Definition read_files (valid : string -> bool) (fs : string -> option (list string)) (fuel : nat)
+                      (paths : list string) : res :=
+  combine_res (map (req_iter valid fs fuel) paths) ([], []).
+Definition cli_front_files (bi be bf : list string) (bno : bool) (r : res) : front_res :=
+  cli_front_full bi be bf bno r.
+Definition bazel_front_files (r : res) (liness : list (list string)) : front_res :=
+  bazel_front r (List.concat liness).
+
 (* ------------------------------------------------------------------ specification side *)
 
 Inductive gap := GSp (ws : string) | GBr (ws : string) (indent : string).
